@@ -82,7 +82,10 @@ FILLER_IN = "abcXYZ:/AVCNLH"                                     # inside the cl
 # ASCII letters/digits: Kelvin sign, long s, dotless i, capital I with dot, full-width letter/colon/slash, other scripts'
 # digits and letters (word characters), ideographs, combining mark, no-break space
 SPECIAL_DELIMS = ("\u212a", "\u017f", "\u0131", "\u0130", "\uff21", "\uff1a", "\uff0f", "\u0661", "\u00df", "\u03a9",
-                  "\u57fa", "\u0301", "\u00a0", "\u2028", "_", "-", "0", "\U0001d400", "\U00011f04")
+                  "\u57fa", "\u0301", "\u00a0", "\u2028", "_", "-", "0", "\U0001d400", "\U00011f04",
+                  # ENCODED forms of vector characters (a decoder in front of the scan would glue them to the vector)
+                  "&#58;", "&#47;", "&#x2F;", "&colon;", "&sol;", "&amp;", "&#65;", "&#x41;", "&#58", "%3A", "%2F", "%41", "\\x2f", "\\u002f",
+                  "\\/", "=3A", "+", "\x1b[0m", "\x08", "\x00")
 
 
 def special_delimiter_cases():
@@ -137,7 +140,7 @@ def text_strategy():
         earlier = []
         for _ in range(n):
             kind = draw(st.sampled_from(("filler-out", "filler-in", "unicode", "valid23", "valid23", "valid4", "near", "repeat",
-                                         "respelled-repeat", "glued", "minor", "min-v2")))
+                                         "respelled-repeat", "glued", "minor", "min-v2", "encoded")))
             if kind == "filler-out":
                 chunks.append(draw(st.text(alphabet=FILLER_OUT, min_size=1, max_size=8)))
             elif kind == "filler-in":
@@ -178,6 +181,11 @@ def text_strategy():
                 glue = draw(st.text(alphabet=FILLER_IN, min_size=1, max_size=4))
                 chunks.append(" " + (glue + v if draw(st.booleans()) else v + glue) + " ")
                 planted.append([ver, v])       # completeness applies only if it ALSO occurs delimited
+            elif kind == "encoded":
+                ver = draw(st.sampled_from(("2", "3")))
+                v = draw(gen.valid(ver))
+                c = draw(st.sampled_from(":/"))
+                chunks.append(" " + v.replace(c, draw(st.sampled_from(gen.encodings(c)))) + " ")
             elif kind == "minor":
                 v = draw(gen.valid("3"))
                 chunks.append(" " + v.replace("CVSS:3.0", "CVSS:3.%d" % draw(st.integers(2, 9))).replace("CVSS:3.1", "CVSS:3.%d" % draw(st.integers(2, 9))) + " ")
@@ -233,5 +241,5 @@ def run(tier, t0):
     return runner.finish(part, tier, t0, rule,
                          ["results compared as a set (order comes from a set and is unspecified)",
                           "completeness asserted only for planted vectors that occur delimited on both sides", fuzz_note],
-                         required=["chunk:" + k for k in ("filler-out", "filler-in", "unicode", "valid23", "valid4", "near", "repeat", "respelled-repeat", "glued", "minor", "min-v2")]
+                         required=["chunk:" + k for k in ("filler-out", "filler-in", "unicode", "valid23", "valid4", "near", "repeat", "respelled-repeat", "glued", "minor", "min-v2", "encoded")]
                          + ["has-delimited-vector", "has-undelimited-vector", "26-char-v2", "atheris-execs:text", "special-delimiter", "long-text"])
